@@ -190,7 +190,7 @@ class PathEnumerator:
                 raise Unsupported("yield expression in assignment")
             v = ev.expr(st.value, f)
             targets = st.targets if isinstance(st, ast.Assign) else [st.target]
-            if v[0] == "ite" and self.split_ite and len(targets) == 1 and isinstance(targets[0], ast.Name) and isinstance(st.value, ast.IfExp):
+            if v[0] == "ite" and self.split_ite and len(targets) == 1 and isinstance(targets[0], (ast.Name, ast.Tuple, ast.List)) and isinstance(st.value, ast.IfExp):
                 # ``x = a if c else b``  is  ``if c: x = a`` / ``else: x = b``
                 outs = []
                 for c, val in ((v[1], v[2]), (t_not(v[1]), v[3])):
@@ -601,6 +601,8 @@ class PathEnumerator:
                 if items is not None and 0 < len(items) <= 8 and all(x[0] in ("tuple", "list", "new", "const", "fn", "enum", "lin") for x in items):
                     return self._unrolled_terms(st, items, p, fr)
             mapped = None
+            if it[0] == "var" and it[3][0] == "comp" and it[3][1] == "gen":
+                it = it[3]      # a generator bound to a local name and consumed by this loop
             if it[0] == "comp" and it[1] == "gen" and len(it[3]) == 1:
                 # ``for y in (f(x) for x in D if c)``: range over D, y = f(x), body only where c
                 dom, conds = it[3][0]
@@ -629,7 +631,9 @@ class PathEnumerator:
         if isinstance(st, ast.For) and mapped is not None and mapped[1] and self.feasible(skip_cond):
             body_paths.append(Path(skip_cond, [], dict(body_env)))      # elements the generator filters out: body not run
         p.events.append(Event("loop", st, it, extra=dict(paths=body_paths, init_env=dict(p.env), assigned=assigned,
-                                                          test=cond0 if isinstance(st, ast.While) else None)))
+                                                          test=cond0 if isinstance(st, ast.While) else None,
+                                                          mapped_elt=(subst(mapped[0], {mapped[2]: bound} if mapped[2] is not None else {})
+                                                                      if isinstance(st, ast.For) and mapped is not None else None))))
         # after the loop: loop-carried variables are unknown ...
         for n in assigned:
             p.env[n] = ("after", n, st.lineno)
